@@ -480,3 +480,323 @@ def rule_transparent_siblings(ctx):
                     if not re.fullmatch(r"derive_more::core::fmt::#(\w+)::fmt\(#(\w+),__derive_more_f\)", tx):
                         ctx.report(f"{t.key()}:delegate-shape", f"{rel}:{t.line}", f"delegation in `{fn.qual}` is `{tx}`, expected `derive_more::core::fmt::#trait::fmt(#expr, __derive_more_f)`", {})
     ctx.floor("delegation templates", m, 4)
+
+
+# ---------------------------------------------------------------- C04
+
+
+def _same_binding(fn, name, off1, off2):
+    b1 = TY.resolve(fn, name, off1)
+    b2 = TY.resolve(fn, name, off2)
+    return b1 is not None and b2 is not None and b1["ident"]["span"] == b2["ident"]["span"]
+
+
+def rule_guard_use(ctx):
+    """GUARD-USE: every emitted bound `#ty: derive_more::core::fmt::#Trait` is guarded by `contains_generics(type_params)` evaluated on the *same* `ty` (same binding): a guard on another type cuts needed bounds (insufficient) or lets non-generic types be bounded (excessive)."""
+    n = 0
+    for rel in (DISPLAY, DEBUG):
+        for fn in A.functions(ctx.files[rel]):
+            for t in T.templates_of(fn):
+                ir = t.ir
+                if not (len(ir) >= 3 and ir[0]["t"] == "var" and ir[1]["t"] == "p" and ir[1]["c"] == ":" and "derive_more::core::fmt::" in T.ir_text(ir).replace(" ", "")):
+                    continue
+                if any(x["t"] == "id" and x["s"] == "impl" for x in ir):
+                    continue
+                n += 1
+                v = ir[0]
+                off = v["span"][0]
+                construct = f"{t.key()}:bound#{t.ordinal}:#{v['s']}"
+                guards = []
+                for mc, ps in A.method_calls(fn.block, "contains_generics"):
+                    r = mc["receiver"]
+                    if A.kind(r) == "Expr::Path" and A.path_str(r) == v["s"]:
+                        guards.append(mc)
+                ok = any(_same_binding(fn, v["s"], off, A.span_of(g)[0]) for g in guards)
+                ctx.instance(construct, sample={"site": construct, "guards_on_same_name": len(guards), "same_binding": ok})
+                if not ok:
+                    ctx.report(
+                        f"{t.key()}:bound-guard#{t.ordinal}",
+                        f"{rel}:{t.line}",
+                        f"the bound `{T.ir_text(ir)}` in `{fn.qual}` is emitted for a `{v['s']}` that was never tested with `contains_generics(type_params)` "
+                        "(the test in this function looks at a different type): bounds are dropped for generic types referenced from a non-generic field's attribute, or emitted for non-generic types",
+                        {},
+                    )
+    ctx.floor("bound templates", n, 6)
+
+
+def _syn_src(ctx, fname):
+    import glob
+    import os
+
+    lock = open(os.path.join(ctx.repo, "Cargo.lock")).read()
+    m = re.search(r'name = "syn"\nversion = "([^"]+)"', lock)
+    ver = m.group(1) if m else "2.0.119"
+    cands = glob.glob(os.path.expanduser(f"~/.cargo/registry/src/*/syn-{ver}/src/{fname}"))
+    if not cands:
+        raise A.AnchorLost(f"syn-{ver}/src/{fname}", "not in the cargo registry")
+    return cands[0], ver
+
+
+_syn_cache = {}
+
+
+def syn_types(ctx):
+    """{enum: [variants]} and {struct: {field: type text}} of syn's ty.rs / path.rs / generics.rs (ast_enum_of_structs! / ast_struct! macros)"""
+    if "t" in _syn_cache:
+        return _syn_cache["t"]
+    enums, structs = {}, {}
+    for fname in ("ty.rs", "path.rs", "generics.rs"):
+        p, ver = _syn_src(ctx, fname)
+        src = open(p).read()
+        for m in re.finditer(r"pub enum (\w+)\s*\{(.*?)\n    \}", src, re.S):
+            body = re.sub(r"//[^\n]*", "", m.group(2))
+            body = re.sub(r"#\[[^\]]*\]", "", body)
+            vs = re.findall(r"^\s*(\w+)\s*(?:\(|,|$)", body, re.M)
+            enums[m.group(1)] = [v for v in vs if v[0].isupper()]
+        for m in re.finditer(r"pub struct (\w+)\s*\{(.*?)\n    \}", src, re.S):
+            body = re.sub(r"//[^\n]*", "", m.group(2))
+            structs[m.group(1)] = dict(re.findall(r"pub (\w+): ([^\n]+?),\n", body + "\n"))
+    _syn_cache["t"] = (enums, structs, ver)
+    return _syn_cache["t"]
+
+
+TYPE_BEARING = re.compile(r"\b(Type|ReturnType|BareFnArg|TypeParamBound|QSelf|Path)\b")
+# variants whose type-bearing fields may be ignored, with the reason
+TRAVERSAL_EXCEPTIONS = {
+    "ImplTrait": "`impl Trait` is not allowed in field types",
+    "Macro": "a type macro's tokens are opaque",
+    "Verbatim": "unparsed tokens",
+    "Infer": "no fields",
+    "Never": "no fields",
+}
+
+
+def rule_traversal(ctx):
+    """TRAVERSE: `contains_generics` handles every variant of syn::Type / PathArguments / GenericArgument (read from the syn sources the crate builds against) explicitly, and recurses into every type-bearing field of each (elem, elems, inputs/output, bounds, qself, path); a variant that falls through to the `unimplemented!` wildcard, or a wrapper that stops recursing, loses bounds (or panics) for such field types."""
+    enums, structs, ver = syn_types(ctx)
+    ctx.note(f"syn {ver}: Type has {len(enums.get('Type', []))} variants")
+    if len(enums.get("Type", [])) < 15:
+        raise A.AnchorLost("syn::Type", f"variants parsed: {enums.get('Type')}")
+    fn = A.get_fn(ctx.files, MOD, "<syn::Type as ContainsGenericsExt>::contains_generics")
+    f = fn.file
+    mt = next((m for m, _ in A.find(fn.block, "Expr::Match") if A.render(m["expr"]) == "self"), None)
+    if mt is None:
+        raise A.AnchorLost(f"{MOD}::<syn::Type as ContainsGenericsExt>::contains_generics", "match self")
+    handled = {}
+    for arm in mt["arms"]:
+        body = A.render(A.unblock(arm["body"]))
+        pats = arm["pat"]["cases"] if A.kind(arm["pat"]) == "Pat::Or" else [arm["pat"]]
+        for p in pats:
+            k = A.kind(p)
+            if k in ("Pat::TupleStruct", "Pat::Path", "Pat::Struct"):
+                name = A.path_last(p["path"])
+                bound = set()
+                for fp, _ in A.find(p, "FieldPat"):
+                    mm = fp["member"]
+                    if A.kind(mm) == "Member::Named":
+                        bound.add(mm["0"]["sym"])
+                handled[name] = (bound, body, arm)
+    for v in enums["Type"]:
+        st = structs.get("Type" + v, {})
+        bearing = sorted(k for k, t in st.items() if TYPE_BEARING.search(t))
+        ctx.instance(f"Type::{v}", sample={"variant": v, "type_bearing_fields": bearing})
+        if v not in handled:
+            ctx.report(
+                f"traverse:Type::{v}:unhandled",
+                ctx.where(f, mt["expr"]),
+                f"`contains_generics` has no arm for `syn::Type::{v}`: such a field type reaches the `unimplemented!` wildcard (the derive panics) "
+                + (f"and its type-bearing fields {bearing} are never searched" if bearing else ""),
+                {},
+            )
+            continue
+        bound, body, arm = handled[v]
+        if v in TRAVERSAL_EXCEPTIONS:
+            continue
+        if not bearing:
+            continue
+        miss = [b for b in bearing if b not in bound]
+        if body == "false" or miss:
+            ctx.report(
+                f"traverse:Type::{v}:no-recursion",
+                ctx.where(f, arm["pat"]),
+                f"`contains_generics` does not search `syn::Type::{v}`'s {miss or bearing}: a type parameter inside such a field type (e.g. through a `$t:ty` macro fragment for `Group`) is not seen, so the needed bound is not generated",
+                {},
+            )
+            continue
+        for b in bearing:
+            if not re.search(r"\b%s\b[^;]*contains_generics" % re.escape(b), body) and not (b in ("inputs", "elems", "bounds") and "contains_generics" in body):
+                ctx.report(f"traverse:Type::{v}:{b}", ctx.where(f, arm["pat"]), f"`contains_generics` binds `{b}` of `Type::{v}` but never recurses into it", {})
+    # Path: first segment, arguments
+    pf = A.get_fn(ctx.files, MOD, "<syn::Path as ContainsGenericsExt>::contains_generics")
+    ptxt = ";".join(A.render_stmt(s) for s in pf.block["stmts"])
+    ctx.instance("Path:first-segment")
+    if not re.search(r"\((\w+)==0\)&&type_params\.contains\(&&segment\.ident\)", ptxt):
+        ctx.report("traverse:Path:first-segment", ctx.where(pf.file, pf.node), "`Path::contains_generics` no longer treats a path whose *first* segment is a type parameter (`T::Assoc`) as generic", {})
+    for en, fnq in (("PathArguments", pf), ("GenericArgument", pf)):
+        for v in enums.get(en, []):
+            ctx.instance(f"{en}::{v}")
+            if f"syn::{en}::{v}" not in ptxt:
+                ctx.report(f"traverse:{en}::{v}", ctx.where(pf.file, pf.node), f"`Path::contains_generics` does not handle `syn::{en}::{v}` explicitly", {})
+    for v in ("Type", "AssocType"):
+        if not re.search(r"syn::GenericArgument::%s\([^)]*\)[^=]*=>\{?ty\.contains_generics" % v, ptxt.replace("|syn::GenericArgument::AssocType(syn::AssocType{ty,..})", "")) and v == "Type":
+            pass
+    if "ty.contains_generics(type_params)" not in ptxt or "inputs.iter().any(|ty|ty.contains_generics(type_params))" not in ptxt:
+        ctx.report("traverse:Path:args", ctx.where(pf.file, pf.node), "`Path::contains_generics` no longer recurses into generic / parenthesised arguments", {})
+    tf = ";".join(A.render_stmt(s) for s in fn.block["stmts"])
+    ctx.instance("Type::Path:qself")
+    if "qself.ty.contains_generics(type_params)" not in tf:
+        ctx.report("traverse:qself", ctx.where(f, fn.node), "`<T as Trait>::X`: the qualified self type is no longer searched", {})
+
+
+def _skeleton(e):
+    """method-call skeleton of an expression: names of methods/functions/macros and identifiers, in order"""
+    r = A.render(e)
+    return re.findall(r"[A-Za-z_][A-Za-z0-9_]*", re.sub(r"\b(to_string|ToString|clone|as_deref|as_ref)\b", "", r.replace("*", "").replace("&", "")))
+
+
+def rule_lookup_agreement(ctx):
+    """LOOKUP-SIB: `bounded_types` (which field a placeholder bounds) and `placeholders_by_arg` (which placeholders mention `_variant`) resolve a placeholder to a name by the same three-way rule: alias -> the argument's identifier (else nothing), bare name -> itself, positional -> the identifier of the un-aliased n-th argument. The two closures are compared arm by arm."""
+    a = A.get_fn(ctx.files, MOD, "FmtAttribute::bounded_types")
+    b = A.get_fn(ctx.files, MOD, "FmtAttribute::placeholders_by_arg")
+    arms = {}
+    for fn in (a, b):
+        for mt, _ in A.find(fn.block, "Expr::Match"):
+            if "placeholder.arg" in A.render(mt["expr"]):
+                for arm in mt["arms"]:
+                    key = "Named" if "Named" in A.render_pat(arm["pat"]) else "Positional" if "Positional" in A.render_pat(arm["pat"]) else A.render_pat(arm["pat"])
+                    arms.setdefault(key, {})[fn.qual] = arm
+    if set(arms) != {"Named", "Positional"} or any(len(v) != 2 for v in arms.values()):
+        raise A.AnchorLost(f"{MOD}::bounded_types/placeholders_by_arg", f"arms found: { {k: list(v) for k, v in arms.items()} }")
+    REF = {
+        "Named": ["self", "args", "iter", "find_map", "a", "a", "alias", "name", "then_some", "a", "expr", "map_or", "Some", "name", "expr", "expr", "ident", "map"],
+        "Positional": ["self", "args", "iter", "nth", "i", "and_then", "a", "a", "expr", "ident", "filter", "_", "a", "alias", "is_none"],
+    }
+    for key, d in arms.items():
+        sk = {q: [w for w in _skeleton(A.unblock(arm["body"])) if w not in ("map",) or True] for q, arm in d.items()}
+        qa, qb = a.qual, b.qual
+        ctx.instance(f"lookup:{key}", sample={"arm": key, a.qual: " ".join(sk[qa])[:160]})
+        na = [w for w in sk[qa] if w not in ("map",)]
+        nb = [w for w in sk[qb] if w not in ("map",)]
+        # bounded_types has a trailing `?` / .to_string() which the skeleton ignores
+        ref = [w for w in REF[key] if w != "map"]
+        for q, s_ in ((qa, na), (qb, nb)):
+            if s_[: len(ref)] != ref:
+                arm = d[q]
+                ctx.report(
+                    f"lookup:{key}:{q}",
+                    ctx.where(a.file, arm["pat"]),
+                    f"`{q}` resolves a `{key}` placeholder as `{A.render(A.unblock(arm['body']))[:220]}`; its sibling and the documented rule are "
+                    + ("alias -> `a.expr.ident()` (none for a non-identifier expression), otherwise the bare name" if key == "Named" else "`args.nth(i)`'s identifier when it has no alias")
+                    + ": the two lookups no longer agree, so bounds / `_variant` detection refer to different arguments than format_args! does",
+                    {"skeleton": s_, "reference": ref},
+                )
+
+
+# ---------------------------------------------------------------- C07
+
+
+def rule_shared_reject(ctx):
+    """REJECT: Display-like `expand_enum` returns an error before any arm is generated when a `_variant` placeholder has modifiers or a non-Display trait; Debug's `expand_enum` rejects any enum-level format attribute."""
+    fn = A.get_fn(ctx.files, DISPLAY, "expand_enum")
+    f = fn.file
+    st0 = fn.block["stmts"][0]
+    txt = A.render_stmt(st0) if A.kind(st0) != "Stmt::Expr" else A.render(st0["0"])
+    ctx.instance("display::expand_enum:reject", sample=txt[:300])
+    m = re.search(r'placeholders_by_arg\("_variant"\)\.any\(\|(\w+)\|(.*?)\)\{', txt)
+    if not txt.startswith("if let Some(") or not m or "return Err(" not in txt:
+        ctx.report("reject:display:missing", ctx.where(f, fn.node), "`expand_enum` does not start by rejecting `_variant` placeholders with format specifiers", {"first_stmt": txt[:200]})
+    else:
+        v, cond = m.group(1), m.group(2)
+        terms = set(cond.split("||"))
+        want = {f"{v}.has_modifiers", f'{v}.trait_name!="Display"'}
+        if terms != want:
+            ctx.report(
+                "reject:display:predicate",
+                ctx.where(f, fn.node),
+                f"the `_variant` rejection tests `{cond}`; it must reject a placeholder that has modifiers OR a non-Display trait (`{{_variant:?}}` / `{{_variant:>8}}` cannot be honoured by the `format_args!` wrapping)",
+                {},
+            )
+    fn = A.get_fn(ctx.files, DEBUG, "expand_enum")
+    st0 = fn.block["stmts"][0]
+    txt = A.render(st0["0"]) if A.kind(st0) == "Stmt::Expr" else A.render_stmt(st0)
+    ctx.instance("debug::expand_enum:reject", sample=txt[:200])
+    if not re.match(r"if let Some\((\w+)\)=attrs\.fmt\.as_ref\(\)\{return Err\(", txt):
+        ctx.report("reject:debug", ctx.where(fn.file, fn.node), "Debug's `expand_enum` no longer rejects an enum-level format attribute first", {"first_stmt": txt[:200]})
+
+
+def _arm_decisions(fn, scrut_contains):
+    """for the match on the own attribute in generate_body / generate_bounds: {arm: (inner if condition, tail value)}"""
+    out = {}
+    for mt, _ in A.find(fn.block, "Expr::Match"):
+        if scrut_contains not in A.render(mt["expr"]):
+            continue
+        for arm in mt["arms"]:
+            key = A.render_pat(arm["pat"]).split("(")[0]
+            body = arm["body"]
+            stmts = body["block"]["stmts"] if A.kind(body) == "Expr::Block" else []
+            conds = []
+            tail = None
+            for s in stmts:
+                if A.kind(s) == "Stmt::Expr":
+                    e = s["0"]
+                    if A.kind(e) == "Expr::If":
+                        conds.append(A.render(e["cond"]))
+                    elif s is stmts[-1]:
+                        tail = A.render(e)
+            if stmts and A.kind(stmts[-1]) == "Stmt::Expr" and A.kind(stmts[-1]["0"]) != "Expr::If":
+                tail = A.render(stmts[-1]["0"])
+            out[key] = (conds, tail)
+        break
+    return out
+
+
+def rule_shared_decision(ctx):
+    """SHARED-SIB: `generate_body` and `generate_bounds` of the Display-like Expansion take the same decisions from `shared_attr_info()`: with an own attribute -> wrap iff the shared attribute is wrapping; without -> generate the implicit body/bound iff `shared_attr_is_wrapping || !has_shared_attr`, and mix the shared attribute in iff `has_shared_attr`. A body that formats a field the bounds ignore (or vice versa) fails to compile or over-constrains."""
+    gb = A.get_fn(ctx.files, DISPLAY, "Expansion::generate_body")
+    gn = A.get_fn(ctx.files, DISPLAY, "Expansion::generate_bounds")
+    da = _arm_decisions(gb, "self.attrs.common.fmt")
+    db = _arm_decisions(gn, "self.attrs.common.fmt")
+    if set(da) != {"Some", "None"} or set(db) != {"Some", "None"}:
+        raise A.AnchorLost(f"{DISPLAY}::Expansion::generate_body/generate_bounds", f"arms {list(da)} / {list(db)}")
+    REF = {"Some": ([], "shared_attr_is_wrapping"), "None": (["shared_attr_is_wrapping||!has_shared_attr"], "has_shared_attr")}
+    for arm in ("Some", "None"):
+        for q, d in ((gb.qual, da), (gn.qual, db)):
+            conds, tail = d[arm]
+            ctx.instance(f"{q}:{arm}", sample={"fn": q, "arm": arm, "conditions": conds, "mix_shared": tail})
+            rc, rt = REF[arm]
+            # the Some arm of generate_body has its own if-chain (wrapping / transparent / write!) judged elsewhere
+            if arm == "None" and conds[:1] != rc:
+                ctx.report(f"shared:{q}:{arm}:cond", ctx.where(gb.file, (gb if q == gb.qual else gn).node), f"`{q}` generates the implicit part for variants without an own attribute under `{conds[:1]}` instead of `{rc[0]}`: body and bounds disagree about which variants format their field implicitly", {})
+            if tail != rt:
+                ctx.report(f"shared:{q}:{arm}:mix", ctx.where(gb.file, (gb if q == gb.qual else gn).node), f"`{q}` mixes the shared attribute in iff `{tail}` (arm {arm}); expected `{rt}`", {})
+    # shared_attr_info
+    si = A.get_fn(ctx.files, DISPLAY, "Expansion::shared_attr_info")
+    txt = ";".join(A.render_stmt(s) for s in si.block["stmts"])
+    ctx.instance("shared_attr_info", sample=txt[:400])
+    want = [
+        'self.shared_attr.map_or(true,|attr|attr.contains_arg("_variant"))',
+        "self.shared_attr.is_some_and(|attr|attr.transparent_call().map_or(true,|(_,called_trait)|&called_trait!=self.trait_ident||!shared_attr_contains_variant))",
+        "(has_shared_attr,has_shared_attr&&shared_attr_contains_variant)",
+    ]
+    for w in want:
+        if w not in txt:
+            ctx.report("shared_attr_info", ctx.where(si.file, si.node), f"`shared_attr_info` no longer computes `{w[:80]}..`: which variants are wrapped / defaulted changes", {"body": txt})
+            break
+    # wrap shape
+    ok = False
+    for t in T.templates_of(gb):
+        if T.ir_text(t.ir).replace(" ", "") == "match#body{_variant=>#shared_body}":
+            ok = True
+    ctx.instance("wrap-shape")
+    if not ok:
+        ctx.report("wrap-shape", ctx.where(gb.file, gb.node), "the wrapping template `match #body { _variant => #shared_body }` is gone: `_variant` is no longer bound to the variant's own text with the fields still in scope", {})
+    # rename_all applies to the unit name on both paths (wrapping and plain)
+    ok = False
+    for x, ps in A.walk(gb.block):
+        if A.kind(x) == "Expr::If" and A.render(x["cond"]).startswith("let Some(rename_all)=") and "convert_case" in A.render(x["then_branch"]["stmts"][0]["0"]) if A.kind(x) == "Expr::If" and x["then_branch"]["stmts"] and A.kind(x["then_branch"]["stmts"][0]) == "Stmt::Expr" else False:
+            enclosing = [A.render(p["cond"]) for p in ps if A.kind(p) == "Expr::If"]
+            if not any("shared_attr_is_wrapping" == c for c in enclosing):
+                ok = True
+    ctx.instance("rename-before-split")
+    if not ok:
+        ctx.report("rename-before-split", ctx.where(gb.file, gb.node), "`rename_all` is not applied to a unit variant's name before the wrapping / non-wrapping split: `_variant` shows the unconverted name under an enum-level format", {})
